@@ -28,10 +28,11 @@ const (
 	Sem         // parses, semantically invalid (device without edits)
 	Empty       // empty file
 	Dangling    // symbolic link whose target does not exist
+	LnX         // symbolic link to a valid Spec file (device x) kept outside the Spec directories
 	NKinds
 )
 
-var KindNames = []string{"absent", "X", "XY", "Y", "V2", "SYN", "SEM", "EMPTY", "DANGLING"}
+var KindNames = []string{"absent", "X", "XY", "Y", "V2", "SYN", "SEM", "EMPTY", "DANGLING", "LNX"}
 
 func (k Kind) String() string { return KindNames[k] }
 
@@ -43,7 +44,7 @@ const (
 // Devices defined by a kind (qualified names).
 func Devices(k Kind) []string {
 	switch k {
-	case X:
+	case X, LnX:
 		return []string{Kind1 + "=x"}
 	case XY:
 		return []string{Kind1 + "=x", Kind1 + "=y"}
@@ -55,11 +56,11 @@ func Devices(k Kind) []string {
 	return nil
 }
 
-func Valid(k Kind) bool { return k >= X && k <= V2 }
+func Valid(k Kind) bool { return (k >= X && k <= V2) || k == LnX }
 
 func VendorClass(k Kind) (string, string) {
 	switch k {
-	case X, XY, Y:
+	case X, XY, Y, LnX:
 		return "vendor1.com", "cls"
 	case V2:
 		return "vendor2.org", "other"
@@ -167,6 +168,18 @@ func WriteSlot(root, dir, name string, k Kind) error {
 	if k == Dangling {
 		_ = os.Remove(p)
 		return os.Symlink(filepath.Join(root, "no-such-target"), p)
+	}
+	if k == LnX {
+		_ = os.Remove(p)
+		tdir := filepath.Join(root, "linktargets")
+		if err := os.MkdirAll(tdir, 0o755); err != nil {
+			return err
+		}
+		target := filepath.Join(tdir, dir+"-"+name)
+		if err := os.WriteFile(target, Content(X, name, dir+"/"+name), 0o644); err != nil {
+			return err
+		}
+		return os.Symlink(target, p)
 	}
 	return os.WriteFile(p, Content(k, name, dir+"/"+name), 0o644)
 }
